@@ -50,6 +50,7 @@ class GssMonitor:
             frontiers=0,
             multi_revisit=0,
             revisit_before_actor=0,
+            revisit_without_path_to_the_new_link=0,
         )
         self._actor_ids = set()
         self._limited = None
@@ -94,6 +95,27 @@ class GssMonitor:
                 # still waiting for the actor will do all its reductions anyway
                 if id(head) not in mon._actor_ids:
                     mon.c["revisit_before_actor"] += 1
+                # ... and only heads whose reduction paths pass through the node that got the
+                # new link (reachable over links inside the current frontier)
+                target = update_parent.head
+                if target is not head:
+                    seen = {id(head)}
+                    st = [head]
+                    found = False
+                    budget = 3000
+                    while st and not found and budget > 0:
+                        n = st.pop()
+                        for par in n.parents.values():
+                            budget -= 1
+                            r = par.root
+                            if r is target:
+                                found = True
+                                break
+                            if r.frontier == head.frontier and id(r) not in seen:
+                                seen.add(id(r))
+                                st.append(r)
+                    if not found and budget > 0:
+                        mon.c["revisit_without_path_to_the_new_link"] += 1
                 # heads revisited because of one new link: more than one means their order matters
                 rc = mon._revisit_ctx
                 if rc is not None and id(head) not in rc:
